@@ -64,9 +64,9 @@ KindR6 == ("a" :> "ra")
 BodyR6 == NoBody(ItemsR6)
 ProgR6 == ("c1" :> <<A("a"), ACT, REL>> @@ "c2" :> <<RET, REL, REL>>)
 
-\* ---- R7 (thorough): three items, a barrier sync, both release ----
-ItemsR7 == {"a", "b", "x", "y"}
-KindR7 == ("a" :> "ra" @@ "b" :> "bs" @@ "x" :> "ra" @@ "y" :> "ra")
-BodyR7 == ("a" :> "none" @@ "b" :> "none" @@ "x" :> "none" @@ "y" :> "release")
-ProgR7 == ("c1" :> <<A("a"), BS("b"), REL>> @@ "c2" :> <<A("x"), A("y")>>)
+\* ---- R7 (thorough): a barrier sync waiter, and a block that owns (and releases) the other client's reference ----
+ItemsR7 == {"a", "b", "y"}
+KindR7 == ("a" :> "ra" @@ "b" :> "bs" @@ "y" :> "ra")
+BodyR7 == ("a" :> "none" @@ "b" :> "none" @@ "y" :> "release")
+ProgR7 == ("c1" :> <<A("a"), BS("b"), REL>> @@ "c2" :> <<A("y")>>)
 =============================================================================
